@@ -187,4 +187,19 @@ func init() {
 			"A-globals: package-level []byte(\"...\") append bases have cap == len, so append never writes through them",
 		},
 	})
+	registerProp(&PropSpec{
+		ID:       "C12",
+		Patterns: []string{"."},
+		Units: []string{
+			modPath + ".(*writer).Close", modPath + ".(*responseWriter).WriteHeader", modPath + ".(*M).ResponseWriter",
+			modPath + ".(*M).Reader", modPath + ".(*M).Writer", modPath + ".(*M).Bytes", modPath + ".(*M).String",
+		},
+		Custom:  []string{"partial"},
+		Partial: []string{modPath + ".(*responseWriter).Write"},
+		Notes: []string{
+			"sequential contracts on the wrappers of minify.go: writer.Close is idempotent, closes the pipe and THEN waits for the minifier goroutine (trace [Close, Wait]) and returns the minifier's error if set, else the pipe's; responseWriter.WriteHeader deletes Content-Length before writing the status; ResponseWriter derives the fallback media type from the request path extension; Reader/Writer create the pipe and start exactly one goroutine (Writer after wg.Add); responseWriter.Write reads Content-Type before matching and passes writes through only when no minifier matches; Bytes/String hand the whole input to one m.Minify call (C10 contracts)",
+			"a go statement is abstracted as a spawn event plus havoc of all heaps; goroutine bodies, the happens-before of wg.Wait and every scheduling/chunking/pacing-quantified clause ('same bytes for any chunking', 'delivered by the time Close returns') are NOT decided by this technique",
+			"chunk independence of the six Minify functions would follow from 'the reader is used exactly once as the argument of parse.NewInput' plus io.ReadAll's contract; that lemma over assumed dependency contracts is not machine-checked here",
+		},
+	})
 }
